@@ -209,8 +209,12 @@ def eval_cases(prop, header, case_terms, shard_size=60, checker='mismatches', ti
             ok = False
             logs.append('%s: could not parse output\n%s' % (p, log[-2000:]))
             continue
-        for a, b in re.findall(r'\((\d+),\s*(\d+)\)', body):
+        for a, b in re.findall(r'\(\s*(\d+)(?:%\w+)?\s*,\s*(\d+)(?:%\w+)?\s*\)', body):
             failures.append((base + int(a), int(b)))
+        stripped = re.sub(r'\s+', '', body)
+        if stripped not in ('[]', 'nil') and not re.search(r'\(\s*\d+(?:%\w+)?\s*,', body):
+            ok = False
+            logs.append('%s: non-empty result that could not be parsed: %s' % (p, body[:500]))
     shutil.rmtree(d, ignore_errors=True)
     return ok, failures, '\n'.join(logs)
 
